@@ -54,7 +54,7 @@ func c01SeqLen(w *mon.W, r interface{ Intn(int) int }, k int) int {
 }
 
 func runC01(w *mon.W) {
-	nFiles := w.Pick(20000, 200000)
+	nFiles := w.Pick(20000, 500000)
 	nBig := w.Pick(20, 400)
 	tmp := filepath.Join(w.Dir, fmt.Sprintf("c01-%d", w.Shard))
 	os.MkdirAll(tmp, 0755)
